@@ -90,11 +90,17 @@ impl<'a> ExpressionEvaluator<'a> {
         self.program().expect_next_token(Token::RightParen)?;
         self.program()
             .push_function_call_onto_stack_and_goto_it(function_name, bindings)?;
-        let value = self.evaluate_expression()?;
+        let mut result = self.evaluate_expression();
+        if let Err(err) = &mut result {
+            // The error happened in the function body, so that's where it
+            // should point, even though we're about to leave the body.
+            self.program().populate_error_location(err);
+        }
+        // The frame must not outlive the call, even when the body fails.
         self.program()
             .pop_function_call_off_stack_and_return_from_it();
 
-        Ok(Some(value))
+        Ok(Some(result?))
     }
 
     fn evaluate_function_call(
